@@ -141,7 +141,11 @@ PROPS = {
                     # single expressions with several step references (one of them already connected by another expression of
                     # the same stage), optional members with several sources
                     S_engine(M.both(M.mon_c02_engine, M.no_eval_failure("C02", "a stage input was evaluated before the data it refers to was produced")),
-                             extra=["-tags", "-multiref"], name="engine-multiref", n=(150, 1500), seed_off=41)],
+                             extra=["-tags", "-multiref"], name="engine-multiref", n=(150, 1500), seed_off=41),
+                    # step outputs are logged (config.LoggedOutputConfigs) through a sink that takes 40 ms per such line: a pure
+                    # delay inside the logger, while other steps report their own stage changes
+                    S_engine(M.both(M.mon_c02_engine, M.no_eval_failure("C02", "a stage input was evaluated before the data it refers to was produced")),
+                             extra=["-slowlog", "40"], name="engine-slowlog", n=(40, 300), seed_off=53)],
         "rule": LOOP_RULE + " - every provided stage input is compared with the model; " + ENGINE_RULE +
                 " - every plugin execution's input is recomputed from the logged producer outputs",
     },
